@@ -33,6 +33,11 @@ def check(repo: Repo, rep, tier):
     suffix_shape(repo, rep)
     storage_no_cache(repo, rep)
     persist_unique(repo, rep)
+    persist_pattern(repo, rep)
+    from .C03 import import_scope
+
+    # whether a module `uses externals` is decided by the same import scan
+    import_scope(repo, rep)
 
 
 def content_addr(repo: Repo, rep):
@@ -377,6 +382,43 @@ def persist_unique(repo: Repo, rep):
                         construct=f"{m.name}:{call.func.attr}",
                     )
     rep.floor("R-PERSIST-UNIQUE", "rename / unlink sites in name-addressed storage methods", n, 2)
+
+
+def persist_pattern(repo: Repo, rep):
+    rep.rule(
+        "R-PERSIST-PATTERN",
+        "persist() has to find the file that still carries the `-new` marker: the name it looks up is the *pattern* of the external (`<hash>*<suffix>`, "
+        "external._path), either built inside persist() or by each caller - never the bare text of the reference.  With hash-length = 64 the reference "
+        "is written without a `*`; looked up literally it matches only the already persisted name, the HashError is swallowed and the data of a freshly "
+        "written reference stays a -new file that git ignores and the next session prunes",
+    )
+    c = repo.cls("DiscStorage", "_external.py")
+    p = c.methods.get("persist")
+    if p is None:
+        rep.undecided("R-PERSIST-PATTERN", "DiscStorage.persist not found")
+        return
+    inside = any(isinstance(x, ast.Attribute) and x.attr == "_path" for x in body_nodes(p.node)) or any(isinstance(x, ast.Constant) and isinstance(x.value, str) and "*" in x.value for x in body_nodes(p.node))
+    if inside:
+        rep.ok("R-PERSIST-PATTERN", p, p.node, "persist() looks the pattern of the external up")
+        return
+    cg = callgraph(repo)
+    calls = [(cf, c_) for cf, c_, how in cg.callers.get(p.key, []) if not cf.module.rel.startswith("@")]
+    if not calls:
+        calls = [(f, x) for f in repo.pkg_funcs() for x in body_nodes(f.node) if isinstance(x, ast.Call) and isinstance(x.func, ast.Attribute) and x.func.attr == "persist"]
+    rep.floor("R-PERSIST-PATTERN", "persist() call sites", len(calls), 1)
+    for cf, c_ in calls:
+        a = c_.args[0] if c_.args else None
+        if a is not None and ("_path" in norm(a) or (isinstance(a, ast.JoinedStr) and any(isinstance(v, ast.Constant) and "*" in str(v.value) for v in a.values))):
+            rep.ok("R-PERSIST-PATTERN", cf, c_, "the pattern of the external is handed to persist()")
+        else:
+            rep.violation(
+                "R-PERSIST-PATTERN",
+                cf,
+                c_,
+                f"`{short(c_, 50)}` hands persist() the text of the reference, and persist() looks it up literally: a reference with the full hash (hash-length = 64) has no `*`, the `-new` file is not found, "
+                "the error is ignored - the test file refers to data that is never persisted",
+                construct=f"{cf.qualname}:persist-literal",
+            )
 
 
 def lookup(repo: Repo, rep):
